@@ -198,3 +198,174 @@ def _intended(case, ver):
                          len=s["len"] if known else -1))
     links = [dict(e1=[l["n1"], l["t1"]], e2=[l["n2"], l["t2"]], ov=l["ov"]) for l in case["links"]]
     return dict(segs=segs, links=links, nconts=len(case["conts"]))
+
+
+# --------------------------------------------------------------------------
+# code -> spec: trace files, TLC validation
+
+OBS_KEYS = ("lines", "cc", "dig", "hdr")
+LINE_KEYS = ("p", "virt", "own", "fwd", "br")
+
+
+def _slim(obs):
+    """The part of an observation TraceGraphOps reads (keeps the JSON small)."""
+    if "broken" in obs:
+        return obs
+    o = {k: obs[k] for k in OBS_KEYS}
+    o["lines"] = [{k: ln[k] for k in LINE_KEYS} for ln in obs["lines"]]
+    return o
+
+
+def _obs_slots(rec):
+    yield rec, "pre"
+    for k in ("m1", "m2"):
+        if k in rec:
+            yield rec[k], "obs"
+
+
+def write_shards(recs, wd, nshards):
+    """recs carry a local pool; re-intern into one pool per shard."""
+    nshards = max(1, min(nshards, len(recs)))
+    files = []
+    for s in range(nshards):
+        part = recs[s::nshards]
+        if not part:
+            continue
+        pool = project.Pool()           # records are already extended by GPool
+        cases = []
+        for r in part:
+            m = {i + 1: pool.add(x) for i, x in enumerate(r["pool"])}
+            c = {k: v for k, v in r.items() if k not in ("pool", "text", "case", "job")}
+            c = copy.deepcopy(c)
+            for holder, key in _obs_slots(c):
+                o = _slim(holder[key])
+                for ln in o["lines"]:
+                    ln["p"] = m[ln["p"]]
+                holder[key] = o
+            cases.append(c)
+        f = os.path.join(wd, "shard%d.json" % s)
+        with open(f, "w") as fh:
+            json.dump({"pool": pool.items, "cases": cases}, fh)
+        files.append(f)
+    return files
+
+
+TRACE_CFG = "SPECIFICATION Spec\nINVARIANT Judge\nCHECK_DEADLOCK FALSE\n"
+
+
+def validate(recs, name):
+    """Returns {case id: sorted clauses} for the rejected cases, and the number of states."""
+    good = [r for r in recs if "broken" not in r]
+    if not good:
+        return {}, 0
+    wd = tlc.workdir(name + "-shards")
+    files = write_shards(good, wd, NCPU)
+    res = tlc.run_sharded("TraceGraphOps", TRACE_CFG, files, name + "-tlc", heap="2g")
+    rej = {}
+    distinct = 0
+    for rc, out in res:
+        st = tlc.stats(out)
+        if rc != 0 or st is None or "No error has been found" not in out:
+            raise MachineryError("TraceGraphOps failed:\n" + "\n".join(out.splitlines()[-30:]))
+        distinct += st[1]
+        for raw in tlc.parse_tuples(out, "REJECT"):
+            v = tlc.tla_value(raw)
+            rej[v[1]] = sorted(v[2])
+    if distinct != len(good):
+        raise MachineryError("TraceGraphOps consumed %d states, expected %d" % (distinct, len(good)))
+    return rej, distinct
+
+
+def run_jobs(fn, jobs):
+    if not jobs:
+        return []
+    with MPool(processes=min(NCPU, len(jobs))) as mp:
+        return mp.map(fn, jobs, chunksize=max(1, min(200, len(jobs) // (NCPU * 8) + 1)))
+
+
+def _machinery(recs, rej):
+    bad = [r for r in recs if r.get("broken", "").startswith("load:")]
+    if bad:
+        raise MachineryError("an enumerated case was not loadable by gfapy: %s -> %s\n%s"
+                             % (bad[0]["id"], bad[0]["broken"], "\n".join(bad[0]["text"])))
+    h = [i for i, c in rej.items() if any(x.startswith("harness.") for x in c)]
+    if h:
+        raise MachineryError("text builder and specification disagree on %d cases, e.g. %s %s"
+                             % (len(h), h[0], rej[h[0]]))
+
+
+# --------------------------------------------------------------------------
+# C14
+
+C14_INV = ["InvLaws", "InvLaws2"]
+
+
+def c14_jobs(tier, seed, out=None):
+    rnd = random.Random(seed)
+    if tier == "quick":
+        base, st1 = mc_graphs("MC_LinearPaths", 3, 3, "graphops-mc14-3", C14_INV)
+        big, st2 = mc_graphs("MC_LinearPaths", 4, 2, "graphops-mc14-4", C14_INV)
+        big = [c for c in big if len(c["links"]) == 2]
+        sample = rnd.sample(big, min(len(big), 1200))
+        bounds = "3 segments x <= 3 dovetails exhaustive; 4 segments x 2 dovetails: %d of %d sampled" % (
+            len(sample), len(big))
+        cases = base + sample
+    else:
+        base, st1 = mc_graphs("MC_LinearPaths", 3, 4, "graphops-mc14-3", C14_INV)
+        big, st2 = mc_graphs("MC_LinearPaths", 4, 4, "graphops-mc14-4", C14_INV)
+        n4 = [c for c in big if len(c["links"]) == 4]
+        rest = [c for c in big if len(c["links"]) < 4]
+        sample = rnd.sample(n4, min(len(n4), 60000))
+        bounds = ("3 segments x <= 4 dovetails and 4 segments x <= 3 dovetails exhaustive; "
+                  "4 segments x 4 dovetails: %d of %d sampled" % (len(sample), len(n4)))
+        cases = base + rest + sample
+    jobs = []
+    for i, c in enumerate(cases):
+        for ver in ("gfa1", "gfa2"):
+            jobs.append(dict(id="c14-%d-%s" % (i, ver), ver=ver, case=c, short=(c["prof"] == 3)))
+    if out is not None:
+        out.add_cov(spec_states=st1[1] + st2[1], spec_transitions=st1[0] + st2[0], bounds=bounds)
+    return jobs
+
+
+def _c14_nontrivial(r):
+    """rule: linear_paths() reported at least one chain and the merge went through"""
+    return bool(r.get("lps", {}).get("paths")) and r.get("m1", {}).get("res") == "ok"
+
+
+def _viol(prop, r, clauses, job):
+    mine = [c for c in clauses if c.startswith(prop + ".") or c == "foreign"]
+    call = r.get("call", "merge_linear_paths(%s)" % ("merged_name='short'" if r.get("short") else ""))
+    m1 = r.get("m1", {})
+    return dict(family=FAMILY, clauses=mine, all_clauses=clauses, input="\n".join(r["text"]), api=call,
+                version=r["ver"], result=m1.get("res", "") + (":" + m1["exc"] if m1.get("exc") else ""),
+                what="%s on %s: clauses %s (result %s)" % (call, r["ver"], ",".join(mine), m1.get("res")),
+                job=job)
+
+
+def check_c14(out, tier, seed):
+    jobs = c14_jobs(tier, seed, out)
+    recs = run_jobs(run_c14, jobs)
+    rej, states = validate(recs, "graphops-val14")
+    _machinery(recs, rej)
+    byid = {j["id"]: j for j in jobs}
+    for r in recs:
+        cl = rej.get(r["id"])
+        if "broken" in r:
+            cl = ["C14.graph"]
+        if cl:
+            out.violations.append(_viol("C14", r, cl, byid[r["id"]]))
+    shapes = {json.dumps([r["text"]]) for r in recs if _c14_nontrivial(r)}
+    out.add_cov(evaluations=len(recs), distinct_nontrivial=len(shapes), traces_validated=states,
+                rule="case = one enumerated graph (GFA1 or GFA2 text) on which linear_paths(), linear_path(s) "
+                     "for every s, merge_linear_paths() twice were run and judged by TraceGraphOps; "
+                     "non-trivial = distinct text with at least one chain reported and a merge that returned",
+                chains_cases=sum(1 for r in recs if r.get("lps", {}).get("paths")),
+                exhaustive=False)
+    for r in [r for r in recs if _c14_nontrivial(r)][:3]:
+        out.samples.append({"text": r["text"], "linear_paths": r["lps"]["paths"], "merge": r["m1"]["res"]})
+    out.assumptions += [
+        "TLC and the TLA+ semantics of spec/LinearPaths.tla, Gfa.tla (dovetail ends), TraceGraphOps.tla",
+        "harness/project.py + GPool: syntactic abstraction of written lines and object references",
+        "graphs of <= 4 segments and <= 4 dovetails (plus two parallel twins), match-only or `*` overlaps",
+    ]
